@@ -157,9 +157,8 @@ async def episode(loop, history, eavesdrop, checkpoints, faults, rnd) -> dict:
                 await gwy._restore_cached_packets(snap)
                 ops.append("restore:ok")
             except Exception as e:  # noqa: BLE001
-                ops.append("restore:raise")
-                if fault != "restore":
-                    out["op_errors"].append((i, "restore", repr(e)))
+                ops.append("restore:raise")     # allowed by the property ("whether or not the operation itself succeeded")
+                out.setdefault("restore_raised", []).append(repr(e).split("(")[0])
             out["engine"].append((i, "restore", before, eng_state(gwy)))
         out["model_ops"].append((before, ops, eng_state(gwy)))
         # --- is a packet received after the operation still handled?  can we still send?
@@ -245,6 +244,8 @@ def run(chk: Check) -> None:
             chk.violation(f"c13.view:{name.split('.')[-1]}:{e.split('(')[0]}", f"after packet {i} ({h[i]!r}) view {name} raised {e}", {**rep, "at": i, "traceback": tb})
         for i, what, e in res["op_errors"][:1]:
             chk.violation(f"c13.op:{what.split('(')[0]}:{e.split('(')[0]}", f"after packet {i}: {what} raised {e}", {**rep, "at": i})
+        for e in res.get("restore_raised", []):
+            chk.count("restore_raised." + e)
         for i, what, before, after in res["engine"]:
             if before != after:
                 chk.violation(f"c13.engine_changed:{what.split('(')[0]}", f"after packet {i}: {what} left the engine as {after}, was {before} "
